@@ -184,6 +184,9 @@ func r10Fork(work string, v r10Variant, baseBlocks [][]kvOp, ops []kvOp) (root s
 				}
 			case "code":
 				kr.sl.SetCode(addr, []byte(op.V))
+			case "suicide":
+				// what the EVM's SELFDESTRUCT does to an account
+				kr.sl.(interface{ Suiside(*types.Address) bool }).Suiside(addr)
 			case "get":
 				kr.sl.GetState(addr, []byte(op.K))
 			case "getacct":
@@ -241,6 +244,7 @@ func root10Workload(args []string) int {
 			var baseBlocks [][]kvOp
 			ctr := 0
 			nb := 2 + rng.Intn(2)
+			selfDestruct := rng.Intn(2) == 0
 			for b := 0; b < nb; b++ {
 				var ops []kvOp
 				for i := 0; i < 6+rng.Intn(8); i++ {
@@ -270,11 +274,34 @@ func root10Workload(args []string) int {
 					ops = append(ops, kvOp{Op: "set", A: acct, K: "keep", V: fmt.Sprintf("keep%d", acct)})
 					base[fmt.Sprintf("%d|s:keep", acct)] = fmt.Sprintf("keep%d", acct)
 				}
+				// account 2 exists from the first base block on and, in half of the cases, destroys itself in the last one
+				// (balance to zero; nonce, code and storage stay what they are in this ledger)
+				if b == 0 {
+					ops = append(ops, kvOp{Op: "bal", A: 2, N: 777})
+					base["2|bal"] = "777"
+				}
+				if b == nb-1 && selfDestruct {
+					ops = append(ops, kvOp{Op: "suicide", A: 2})
+					base["2|bal"] = "0"
+				}
+				// one slot whose value the last base block replaces by a spelling that differs in letter case only
+				if b == nb-2 {
+					ops = append(ops, kvOp{Op: "set", A: 0, K: "cs", V: "spelling"})
+					base["0|s:cs"] = "spelling"
+				} else if b == nb-1 {
+					ops = append(ops, kvOp{Op: "set", A: 0, K: "cs", V: "SPELLING"})
+					base["0|s:cs"] = "SPELLING"
+				}
 				baseBlocks = append(baseBlocks, ops)
 			}
 			// ---- write set W: entries that differ from the committed state
 			seen := map[string]bool{}
 			var ws []wsEntry
+			if rng.Intn(2) == 0 {
+				// ... and W writes the earlier spelling back
+				ws = append(ws, wsEntry{0, "s:cs", "spelling"})
+				seen["0|s:cs"] = true
+			}
 			for len(ws) < 3+rng.Intn(6) {
 				acct := rng.Intn(3)
 				ctr++
